@@ -39,7 +39,8 @@ BOUNDS = {'quick': 'protocol depth 3 over the full alphabet (every value of 6 op
 # ---------------------------------------------------------------------------------------------------------------------
 # (1) option protocol
 
-OPTS = {'pars': ['auto', False, True], 'trivia': [True, False], 'norm': [False, True], 'docstr': [True, False],
+OPTS = {'pars': ['auto', False, True], 'trivia': [True, 1, False, 0],  # trivia: True == 1 and False == 0 mean different things
+        'norm': [False, True], 'docstr': [True, False],
         'raw': [False, 'auto'], 'pep8space': [True, 1, False]}  # pep8space: 1 == True compare equal and mean different things
 BAD = [('nosuchoption', 1), ('pars', 'maybe'), ('trivia', 'bogus'), ('docstr', 3), ('to', None)]
 DOCSRC = 'class C:\n    def f(self):\n        """doc\n        more"""\n        return 1'
@@ -58,7 +59,7 @@ def probe(fst, persist, explicit=None):
     f = FST('i * j', 'exec')
     f.body[0].value.right.replace('x + y', **({'pars': kw['pars']} if 'pars' in kw else {}))
     out.append(f.src)
-    f = FST('# c\nx\ny', 'exec')
+    f = FST('# l0\n# l1\n\n# c\nx\ny', 'exec')  # True: the comment block above, 1: everything from line 1, 0: from line 0, False: nothing
     f.body[0].remove(**({'trivia': kw['trivia']} if 'trivia' in kw else {}))
     out.append(f.src)
     f = FST('s = {a}', 'exec')
